@@ -93,6 +93,7 @@ class Ctx:
         self.t0 = time.time()
         self.violations = []      # list of (replay_path, no_failing_input)
         self.known = []           # KNOWN-FINDING lines
+        self.known_counts = {}
         self.cov = {}
         self.assumptions = []
         self.level = "proof"
@@ -247,6 +248,7 @@ class Ctx:
             line = "KNOWN-FINDING: property=%s %s" % (self.prop, kf["what"])
             if line not in self.known:
                 self.known.append(line)
+            self.known_counts[kf["id"]] = self.known_counts.get(kf["id"], 0) + 1
             return False
         obj = dict(obj)
         obj["property"] = self.prop
@@ -284,6 +286,7 @@ class Ctx:
             "violations": len(self.violations),
             "tree_hash": tree_hash(),
             "known_findings_observed": self.known,
+            "known_findings_counts": self.known_counts,
         }
         os.makedirs(EVID, exist_ok=True)
         with open(os.path.join(EVID, self.prop + ".json"), "w") as f:
